@@ -1,5 +1,5 @@
 (* Python str / Optional[str] operations used by the kernels that harness/pytrans.py translates (mave_hgvs.py, names). *)
-From VV Require Import Model.Base.
+From VV Require Import Model.Base Model.Pattern.
 Local Open Scope string_scope.
 
 Definition slen (s : string) : Z := Z.of_nat (String.length s).
@@ -14,3 +14,7 @@ Definition fmt_ostr (o : option string) : string := match o with Some s => s | N
 (* `s or None` *)
 Definition nonempty (s : string) : option string := if sempty s then None else Some s.
 Definition ononempty (o : option string) : option string := match o with Some s => nonempty s | None => None end.
+
+(* the alleles of a variant as Python sees them (DnaStr) *)
+Definition v_ref_s (v : variant) : string := string_of_dna (v_ref v).
+Definition v_alt_s (v : variant) : string := string_of_dna (v_alt v).
